@@ -67,7 +67,7 @@ def _run(ctx):
     nev = len([e for e in evs if e.kind in ('append', 'append_u64')])
     rep.check(not bad, 'R-C10-3', 'R-C10-3/transcript', 'none of the %d transcript / weight-transcript absorption sites reads the seed' % nev,
               'the seed is absorbed into a transcript: %s' % [(e.kind, e.label()) for e in bad], ctx.where(bad[0].body, bad[0].bb) if bad else ctx.where(vb))
-    rep.floor('R-C10-3', 'absorption events examined', nev, 15)
+    rep.floor('R-C10-3', 'absorption events examined', nev, 10)
     # ---- guards of the verifier core and of the consistency function
     cons = msm.consistency_fn(ctx, 'R-C10-1')
     nseedg = 0
